@@ -8,7 +8,7 @@ rsync -a --delete --exclude target /repo/ /tmp/st/repo/
 rsync -a --delete --exclude replays --exclude .cache /verif/ /tmp/st/verif/
 sed -i 's|path = "/repo|path = "/tmp/st/repo|g' /tmp/st/verif/harness/Cargo.toml
 cd /tmp/st/repo && git checkout -q -- . && git apply "$PATCH"
-cd /tmp/st/verif && (./check "$PROP" --tier "$TIER" || true)
+cd /tmp/st/verif && (NTV_REPO=/tmp/st/repo ./check "$PROP" --tier "$TIER" || true)
 for f in /tmp/st/verif/replays/$PROP-*.json; do [ -f "$f" ] && python3 -c "
 import json,sys
 d=json.load(open('$f'))
